@@ -184,7 +184,14 @@ def conversions(rep, cfg):
                 if t.op == "ite" and t.args[2].op == "icmp":
                     c, rest, leaf = t.args
                     l, r = leaf.args
-                    if c is Tm.eq(l, r) or c is Tm.eq(r, l) or c is Tm.eq(leaf, variant("Equal")):
+                    if c is Tm.eq(l, r) or c is Tm.eq(r, l) or c is Tm.eq(leaf, variant("Equal")) or c is Tm.is_variant(leaf, "Equal"):
+                        out_.append((l, r))
+                        t = rest
+                        continue
+                if t.op == "ite" and t.args[1].op == "icmp":
+                    c, leaf, rest = t.args
+                    l, r = leaf.args
+                    if c is Tm.not_(Tm.eq(l, r)) or c is Tm.not_(Tm.eq(r, l)) or c is Tm.not_(Tm.eq(leaf, variant("Equal"))) or c is Tm.not_(Tm.is_variant(leaf, "Equal")):
                         out_.append((l, r))
                         t = rest
                         continue
